@@ -122,9 +122,12 @@ def _worker_loop(fn, items, idxs, wfd, cpu_limit, mem_bytes):
     os._exit(0)
 
 
-def guarded_map(fn, items, cpu_limit=1.0, procs=None, wall_kill=None, mem_bytes=3 << 30):
+def guarded_map(fn, items, cpu_limit=1.0, procs=None, wall_kill=None, mem_bytes=3 << 30, max_hangs=None):
     """Map fn over items in forked workers.  Returns a list of (status, value):
-    ("ok", result) | ("hang", msg) | ("crash", msg) | ("memory", msg).
+    ("ok", result) | ("hang", msg) | ("crash", msg) | ("memory", msg) | ("skipped", msg).
+    max_hangs: once that many items have hung/crashed the remaining items are not run
+    (status "skipped"): a defect that makes a large share of the inputs hang would
+    otherwise cost cpu_limit seconds each; the caller must report the cut.
     A worker that dies (segfault, os._exit) or stops reporting (stuck in C code where
     signals are not delivered) is killed; the item it was on is reported as crash/hang
     and the rest of its share is handed to a fresh worker.  An exception raised by fn
@@ -161,7 +164,21 @@ def guarded_map(fn, items, cpu_limit=1.0, procs=None, wall_kill=None, mem_bytes=
     for sh in shares:
         spawn(sh)
     driver_error = None
+    n_bad = 0
     while live:
+        if max_hangs is not None and n_bad >= max_hangs:
+            for r in list(live):
+                st = live.pop(r)
+                try:
+                    os.kill(st["pid"], signal.SIGKILL)
+                    os.waitpid(st["pid"], 0)
+                except OSError:
+                    pass
+                os.close(r)
+            for i in range(n):
+                if results[i] is None:
+                    results[i] = ("skipped", "not run: %d inputs had already hung or crashed" % n_bad)
+            break
         rl, _, _ = select.select(list(live), [], [], 1.0)
         now = time.time()
         for r in list(live):
@@ -186,6 +203,8 @@ def guarded_map(fn, items, cpu_limit=1.0, procs=None, wall_kill=None, mem_bytes=
                             if res[0] == "driver-error":
                                 driver_error = res[1]
                             results[i] = (res[0], res[1])
+                            if res[0] in ("hang", "memory"):
+                                n_bad += 1
                             st["pending"].remove(i)
                             st["current"] = None
                         elif line == "D":
@@ -204,6 +223,7 @@ def guarded_map(fn, items, cpu_limit=1.0, procs=None, wall_kill=None, mem_bytes=
                     cur = st["current"] if st["current"] is not None else st["pending"][0]
                     results[cur] = ("hang", "worker unresponsive for %.0fs wall (killed)" % wall_kill) if stuck else \
                         ("crash", "worker process died (wait status %r)" % (status,))
+                    n_bad += 1
                     rest = [i for i in st["pending"] if i != cur]
                     spawn(rest)
     if driver_error is not None:
